@@ -18,6 +18,7 @@ package json
 
 import (
 	"encoding/base64"
+	"errors"
 	"runtime"
 	"strconv"
 	"unsafe"
@@ -472,3 +473,13 @@ func SkipValue(src string, pos int) (ret int, start int) {
 
 //go:linkname unquoteBytes encoding/json.unquoteBytes
 func unquoteBytes(s []byte) (t []byte, ok bool)
+
+// Unquote decodes a quoted JSON string (including the quotes) with JSON escape rules:
+// \/ and surrogate pairs are accepted, Go-only escapes such as \x41 are not.
+func Unquote(s string) (string, error) {
+	vv, ok := unquoteBytes(rt.Str2Mem(s))
+	if !ok {
+		return "", errors.New("invalid JSON string: " + s)
+	}
+	return string(vv), nil
+}
